@@ -49,6 +49,9 @@ CHECKS = {
   "C18": dict(level="model_checking", design="3.7, 4 (C18)",
       text="MxFrame (input buffer, record extraction, output buffer under arbitrary receive-piece and partial-send sizes) is model-checked for ChunkIndependent over every partition of two small record streams. On the implementation 21 scenarios (full, resumed by id / ticket / PSK, client auth, version fallback, PSK suite, TLS 1.3 early data, four failing handshakes, server-speaks-first followed by a resumption) with application data across record boundaries are run with the random source and clock pinned, once in one piece and then under fixed piece sizes 1..16384, pseudo-random piece sizes and partial sends; MxFrame_Trace requires each endpoint's final view (state, result, alerts, digest and count of every byte emitted and of all plaintext delivered, resumption of the follow-up connection) to equal the reference.",
       technique="TLA+ spec MxFrame checked by TLC + differential trace validation of re-chunked executions (MxFrame_Trace)"),
+  "C08": dict(level="exploration", design="3.7, 4 (C08), 6",
+      text="Exploration guided by the MxSession state space: every configuration (TLS 1.1-1.3, DTLS 1.0/1.2 incl. small path MTUs that fragment handshake messages, resumed, tickets, PSK, client auth, early data) x every stop point of its handshake x both roles x structure-aware and random mutations (byte flips, record / handshake / DTLS fragment header fields incl. later fragments that lie about message length and offset, truncation, garbage, injected records of every type up to 20000 bytes, records forged under the session keys with random handshake types and bodies, re-framed / duplicated / deleted / swapped handshake messages, replays, reflections, pairs of these) x continuation (more traffic, closure, timers, deletion), executed on the ASan + LSan + UBSan build with time limits. Alarms: sanitizer reports, leaks at process end, time-outs / loop guards, undocumented return values of matrixSslReceivedData. The universal quantifier over all byte strings is sampled, not exhausted - hence exploration.",
+      technique="spec-guided exploration: MxSession stop points x mutation grammar on the sanitizer build; traces also validated against MxSession_Trace (reported, not alarmed)"),
   "C05": dict(level="model_checking", design="3.6, 4 (C05)",
       text="MxName states the matching rule (exact case-insensitive match per kind, '*' for exactly one left-most label, CN only without supported SAN); TLC tabulates it over a universe of patterns x expected names and checks order independence, CN-only-without-SAN and one-label wildcards as invariants. Real leaf certificates with generated SAN lists (0-3 entries from a pool with wildcards in every position, partial wildcards, case variants, trailing dots, control characters, trailing/double/embedded NULs, e-mail, IP, URI entries; every order of sampled pairs/triples) x CN choices are run through matrixValidateCertsExt for each expected name of a grammar, and every verdict is validated by TLC against Match (soundness; completeness on names without trailing dot).",
       technique="TLA+ spec MxName checked by TLC + validation of the library's verdicts on generated certificates (MxName_Trace)"),
@@ -69,7 +72,9 @@ NEGO_NOTE = ("Trusted base: TLC; the generator's configuration records; the driv
              "Signature algorithm choice and TLS <= 1.2 ECDHE group choice are observed but not judged; extended-master-secret negotiation is judged only through equality on both sides; DTLS is excluded from rewrites.")
 FRAME_NOTE = ("Trusted base: TLC; the driver's pinned entropy and clock wrappers; FNV digests of emitted / delivered bytes. Quick tier: 10 partitions per scenario, thorough: 56. "
               "The count of REQUEST_RECV / REQUEST_SEND round trips is deliberately not compared; DTLS is out of scope of the property.")
-NOTES = {"C18": FRAME_NOTE, "C07": NEGO_NOTE, "C16": DTLS_NOTE, "C14": RES_NOTE, "C04": AUTH_NOTE, "C05": NAME_NOTE, "C01": SESSION_NOTE, "C06": SESSION_NOTE, "C15": SESSION_NOTE, "C02": CHAN_NOTE, "C17": CHAN_NOTE, "C03": PKI_NOTE}
+GARB_NOTE = ("Trusted base: the compilers' sanitizers; the driver's time limits and loop guards. A seeded sample (3200 episodes quick, 48000 thorough), not a proof; coverage-guided fuzzing is not used (libFuzzer is outside this technique family). "
+             "Lines of these traces that MxSession_Trace does not explain are counted in the evidence, not alarmed: C06 / C15 judge sequence-level behaviour on curated input classes.")
+NOTES = {"C08": GARB_NOTE, "C18": FRAME_NOTE, "C07": NEGO_NOTE, "C16": DTLS_NOTE, "C14": RES_NOTE, "C04": AUTH_NOTE, "C05": NAME_NOTE, "C01": SESSION_NOTE, "C06": SESSION_NOTE, "C15": SESSION_NOTE, "C02": CHAN_NOTE, "C17": CHAN_NOTE, "C03": PKI_NOTE}
 
 def main():
     hooks_commits = subprocess.run(["git", "-C", "/repo", "log", "--format=%h %s", "--grep=^verif:"], capture_output=True, text=True).stdout.strip().splitlines()
